@@ -252,13 +252,38 @@ impl Monitor for M {
             1 => {
                 // chains
                 ctx.obs("cases.chain");
-                let k = ctx.rng.range(1, if light { 4 } else { 50 }) as usize;
+                // mostly short chains; 1 in 40 is a long buffer (> 64 KiB: many small messages or a few
+                // of the largest ones), 1 in 1600 exceeds 1 MiB
+                let long = !light && (ctx.index / 4) % 40 == 9;
+                let huge = long && (ctx.index / 4) % 1600 == 9;
+                let big_msgs = long && ctx.rng.chance(1, 2);
+                let k = if huge {
+                    if big_msgs { ctx.rng.range(17, 24) } else { ctx.rng.range(9000, 12000) }
+                } else if long {
+                    if big_msgs { ctx.rng.range(2, 5) } else { ctx.rng.range(700, 2500) }
+                } else {
+                    ctx.rng.range(1, if light { 4 } else { 50 })
+                } as usize;
+                if long {
+                    ctx.obs("chain.long_buffer");
+                }
+                if huge {
+                    ctx.obs("chain.buffer_over_1MiB");
+                }
                 let wsh = ctx.rng.chance(1, 2);
                 let mut o = GenOpts::small();
                 o.force_storage = Some(wsh);
                 let mut buf = vec![];
                 let mut bounds = vec![0usize];
                 for _ in 0..k {
+                    if big_msgs {
+                        o = GenOpts::near_max(&mut ctx.rng);
+                        o.force_storage = Some(wsh);
+                        if ctx.rng.chance(1, 3) {
+                            o.force_exact = false;
+                            o.typical_total = 60000;
+                        }
+                    }
                     if wsh && ctx.rng.chance(1, 5) {
                         let n = ctx.rng.range(1, 20) as usize;
                         let j = crate::mutate::gen_junk(&mut ctx.rng, n);
@@ -328,13 +353,34 @@ impl Monitor for M {
                 if ctx.rng.chance(1, 20) {
                     check_consume(ctx, &[], "empty");
                 }
+                // a random filter configuration (empty / duplicate / over-long ids, extreme counts)
+                if ctx.rng.chance(1, 3) {
+                    let lvl = crate::filtergen::gen_level(&mut ctx.rng);
+                    let cfg = crate::filtergen::gen_filter(&mut ctx.rng, lvl);
+                    let pf: ProcessedDltFilterConfig = cfg.into();
+                    check_call(ctx, &inp.bytes, inp.wsh, Some(("random", &pf)), inp.class, "exact");
+                }
+                // one of the 16 largest declarable lengths, stored: 16 + LEN exceeds 65535
+                if !light && ctx.rng.chance(1, 150) {
+                    let mut o = GenOpts::near_max(&mut ctx.rng);
+                    o.force_storage = Some(true);
+                    let mut b = ref_encode(&gen_msg(&mut ctx.rng, &o)).bytes;
+                    let n = ctx.rng.range(0, 40) as usize;
+                    b.extend(ctx.rng.bytes(n));
+                    ctx.obs("cases.near_max_stored");
+                    check_call(ctx, &b, true, None, "near_max", "exact");
+                    let fi = ctx.rng.usize_below(self.filters.len());
+                    let f = (self.filters[fi].0, &self.filters[fi].1);
+                    check_call(ctx, &b, true, Some(f), "near_max", "exact");
+                    check_consume(ctx, &b, "near_max");
+                }
             }
         }
     }
 
     fn describe(&self, ctx: &Ctx) -> J {
         super::describe(
-            "1/4 payload/declaration mismatches: a valid message whose LEN is exact / larger by 1-12 (slack) / smaller (arguments spill over the declared end) / extended to the end of the buffer, always with parseable bytes behind it (next message, a valid argument, random, zeros), parsed without filter, with one of 4 filters, and through dlt_consume_msg; 1/4 chains of 1-50 concatenated messages (storage mode with occasional junk between) walked by repeated parsing under no filter / a random filter / a drop-all filter and compared with independently computed boundaries; 1/2 inputs of all C02 classes (canonical, dialect, mutants, truncations, long-field attacks, arbitrary, header-shaped) x filter x storage mode. distinct = (storage mode, filter, class, mismatch sign, payload kind, result class); non-trivial = the call returned Ok",
+            "1/4 payload/declaration mismatches: a valid message whose LEN is exact / larger by 1-12 (slack) / smaller (arguments spill over the declared end) / extended to the end of the buffer, always with parseable bytes behind it (next message, a valid argument, random, zeros), parsed without filter, with one of 4 filters, and through dlt_consume_msg; 1/4 chains of 1-50 concatenated messages (1 in 40 chains is a buffer > 64 KiB of 700-2500 small or 2-5 maximum-size messages, 1 in 1600 a buffer > 1 MiB; storage mode with occasional junk between) walked by repeated parsing under no filter / a random filter / a drop-all filter and compared with independently computed boundaries; 1/2 inputs of all C02 classes (canonical, dialect, mutants, truncations, long-field attacks, arbitrary, header-shaped) x filter (4 fixed ones, and a random configuration for every third input) x storage mode, plus stored messages with one of the 16 largest declarable lengths through dlt_message and dlt_consume_msg. distinct = (storage mode, filter, class, mismatch sign, payload kind, result class); non-trivial = the call returned Ok",
             &["the oracle uses only the pattern position, the constant 16 and the LEN/HTYP bytes of the input; whether a mismatching message is accepted or rejected is not its business", "ParsedMessage::Invalid is not counted as a successful parse"],
             &[("boundary.ok", super::scaled(ctx, 100000)), ("boundary.ok_on_mismatching_payload", super::scaled(ctx, 5000)), ("filtered.count_ok", super::scaled(ctx, 10000)), ("consume.ok", super::scaled(ctx, 10000)), ("chain.ok", super::scaled(ctx, 1000))],
         )
